@@ -118,7 +118,9 @@ func (c *ClientFingerprintConfiguration) WriteToConfig(config *Config) error {
 }
 
 func currentTimestamp() ([]byte, error) {
-	t := time.Now().Unix()
+	// gmt_unix_time is a uint32; writing the int64 would put its (zero) high
+	// half into the four bytes the caller copies.
+	t := uint32(time.Now().Unix())
 	buf := new(bytes.Buffer)
 	err := binary.Write(buf, binary.BigEndian, t)
 	return buf.Bytes(), err
